@@ -142,12 +142,26 @@ def run(ctx):
         sl.append(S.spend_line(s.tx, s.txin, R.STD)); meta.append(("valid", s))
         tx2, ftx2, lab = S.mutate(rnd, s)
         sl.append(S.spend_line(tx2, ftx2, R.STD)); meta.append((lab, s))
+        # an invalid commitment, every way round: parity bit, path node, internal key, leaf script, output key
+        ver, vin, vout, lock = s.tx
+        w = list(vin[0][3]); has_annex = len(w) >= 2 and w[-1][:1] == b"\x50"
+        ci = len(w) - (2 if has_annex else 1)
+        ctrl = w[ci]
+        which = rnd.randrange(4)
+        if which == 0: w[ci] = bytes([ctrl[0] ^ 1]) + ctrl[1:]
+        elif which == 1: pos = rnd.randrange(1, len(ctrl)); w[ci] = ctrl[:pos] + bytes([ctrl[pos] ^ (1 << rnd.randrange(8))]) + ctrl[pos + 1:]
+        elif which == 2: w[ci - 1] = w[ci - 1] + b"\x61"
+        if which < 3:
+            tx3 = (ver, [(vin[0][0], vin[0][1], vin[0][2], w, vin[0][4])], vout, lock)
+            sl.append(S.spend_line(tx3, s.txin, R.STD)); meta.append(("bad-commitment", s))
     for extra in (1, 31, 32 * 129 - 32 * 2):
         s = S.build(rnd, "p2tr-script", {"path_len": 2, "annex": False})
         ver, vin, vout, lock = s.tx
         w = list(vin[0][3]); w[-1] = w[-1] + b"\x00" * extra
         tx2 = (ver, [(vin[0][0], vin[0][1], vin[0][2], w, vin[0][4])], vout, lock)
         sl.append(S.spend_line(tx2, s.txin, R.STD)); meta.append(("control-size", s))
+    # SPENDR: as SPEND, and when a step fails the step is asked for twice more (a failed check stays failed)
+    sl = [re.sub(r"^SPEND ", "SPENDR ", l) for l in sl]
     impl = ctx.harness_sharded(sl)
     model = ctx.driver_sharded(sl, "model")
     strip = lambda l: re.sub(r" verdict=\S+$", "", l)
@@ -155,6 +169,8 @@ def run(ctx):
     for (lab, s), l, im in zip(meta, sl, impl):
         if lab == "valid" and s.valid and not re.search(r"end=OK final=01$", im):
             ctx.violation(l, {"stream": "tapscript-session", "impl": im, "why": "a tapscript spend built and signed by the independent implementation (leaf hash per BIP341) did not validate"})
+        if lab == "bad-commitment" and ("end=OK" in im or re.search(r"retry=.*OK", im)):
+            ctx.violation(l, {"stream": "tapscript-session", "impl": im, "why": "a session on an invalid script-path commitment went on past the commitment check"})
         if lab == "control-size" and im != "REFUSED:configure":
             ctx.violation(l, {"stream": "tapscript-session", "impl": im, "why": "control block of a size other than 33+32m (m<=128) was not refused"})
         if lab == "valid":
